@@ -26,9 +26,51 @@ def run(ck):
                  'S_sub(parse_footer) in c08_extension_flag_is_version3']
     ck.trusted += ['Kani 0.68 / CBMC 6.11', 'paper step: units = reference and composition = reference composition  =>  whole decoder = reference']
     hs = [H(n, cap=c, required=r, meaning=m, playback=n in ('c08_header', 'c08_layout_v1_blocks', 'c08_layout_v2_blocks', 'c08_records_min_v1', 'c08_records_min_v2', 'c08_records_designation_lengths_v2', 'c08_records_two_v2', 'c08_records_leap_indicators_v2')) for n, c, r, m in UNITS]
-    kprop.run_harnesses(ck, hs, on_fail=lambda B, h: (footer_replay(ck, B, h) if h.name == 'c08_footer_framing' else kprop.playback_violation(ck, B, h) if h.playback_ok else ck.inconclusive.append(f'{h.name} FAILED: {h.failed_checks[:4]} (harness with abstracted callees: no native replay; unresolved)')))
+    kprop.run_harnesses(ck, hs, on_fail=lambda B, h: (footer_replay(ck, B, h) if h.name == 'c08_footer_framing' else composition_replay(ck, B, h) if h.name == 'c08_file_composition' else kprop.playback_violation(ck, B, h) if h.playback_ok else ck.inconclusive.append(f'{h.name} FAILED: {h.failed_checks[:4]} (harness with abstracted callees: no native replay; unresolved)')))
     ck.functions += ['parse::tz_file::parse_header', 'read_data_blocks::<4>/<8>', 'DataBlocks::<4>/<8>::parse', 'parse_footer', 'parse_tz_file', 'parse::utils::{read_exact, read_chunk_exact}', 'LocalTimeType::new', 'TimeZone::new']
     ck.explanation = 'Whole-file harnesses do not finish (DESIGN.md C08); the decoder is verified as it is written: five units against an RFC 8536 reference typed in the harness, plus composition harnesses with abstracted callees.'
+
+
+def tzif_block(time_size, timecnt, typecnt, charcnt, leapcnt, isstdcnt, isutcnt, valid_content):
+    """data block for the given counts; valid_content: one UTC type named by the NUL-terminated string at index 0 (needs typecnt = 1,
+    timecnt = leapcnt = 0), otherwise zero bytes (content of a skipped 32-bit block is irrelevant)"""
+    chars = (b'UTC\0' + b'\0' * charcnt)[:charcnt] if valid_content else b'\0' * charcnt
+    return (b'\0' * (timecnt * time_size) + b'\0' * timecnt + (b'\0' * 6) * typecnt + chars + b'\0' * (leapcnt * (time_size + 4)) + b'\0' * isstdcnt + b'\0' * isutcnt)
+
+
+def tzif_header(version, isutcnt, isstdcnt, leapcnt, timecnt, typecnt, charcnt):
+    import struct
+    return b'TZif' + version + b'\0' * 15 + struct.pack('>6I', isutcnt, isstdcnt, leapcnt, timecnt, typecnt, charcnt)
+
+
+def composition_replay(ck, B, h):
+    """c08_file_composition abstracts the record decoder, so its counterexample cannot be replayed as it is. Replay by construction:
+    WELL-FORMED files whose headers carry the counterexample's counts (32-bit block of a v2/v3 file: any counts that are consistent;
+    64-bit block: one UTC type) must be accepted by the real decoder, and the same v1 body followed by one more byte must be refused."""
+    vecs = B.playback(h)
+    if not vecs or len(vecs) < 44:
+        ck.inconclusive.append(f'{h.name} FAILED ({h.failed_checks[:3]}); concrete playback produced no file bytes')
+        return
+    import struct
+    buf = bytes(v[0] for v in vecs[:112]) if len(vecs[0]) == 1 else bytes(vecs[0])   # kani::any::<[u8; N]>() draws the bytes one by one
+    buf = buf + bytes(44)
+    isut, isstd, leap, tim, typ, chr_ = [x % 4 for x in struct.unpack('>6I', buf[20:44])]
+    typ, chr_ = max(typ, 1), max(chr_, 1)
+    nat = common.Native()
+    cands = []
+    for (a, b, c, d) in {(isut and typ, isstd and typ, leap, tim), (0, 0, leap, tim), (0, 0, 1, 0), (0, 0, 0, 1), (typ, typ, 1, 1), (0, 0, 0, 0)}:
+        for ver in (b'2', b'3'):
+            f = (tzif_header(ver, a, b, c, d, typ, chr_) + tzif_block(4, d, typ, chr_, c, b, a, False) + tzif_header(ver, 0, 0, 0, 0, 1, 4) + tzif_block(8, 0, 1, 4, 0, 0, 0, True) + b'\nUTC0\n')
+            cands.append((f'well-formed v{ver.decode()} file, 32-bit block with counts (isut,isstd,leap,time,type,char)=({a},{b},{c},{d},{typ},{chr_})', f, True))
+    v1 = tzif_header(b'\0', 0, 0, 0, 0, 1, 4) + tzif_block(4, 0, 1, 4, 0, 0, 0, True)
+    cands += [('well-formed v1 file', v1, True), ('v1 file followed by one more byte', v1 + b'\0', False)]
+    outs = nat.both([f'tzif {f.hex()}' for _, f, _ in cands])
+    for (what, f, want_ok), o in zip(cands, outs):
+        for x in o:
+            if x.startswith('panic') or x.startswith('ok') != want_ok:
+                ck.violation(f'{h.name}: {what}: the real decoder answers {x[:120]!r}; RFC 8536 says {"accept" if want_ok else "reject"}', {'kind': 'tzif-file', 'cmd': f'tzif {f.hex()}', 'want_ok': want_ok})
+                return
+    ck.inconclusive.append(f'{h.name} FAILED ({h.failed_checks[:3]}); none of the well-formed files built from the counterexample\'s counts is mis-decoded natively')
 
 
 def footer_reference(raw):
@@ -70,6 +112,10 @@ def engb_le(v):
 
 def replay(ck, case):
     c = case['case']
+    if c.get('kind') == 'tzif-file':
+        out = common.Native().both([c['cmd']])[0]
+        print([o[:100] for o in out], 'want accepted:', c['want_ok'])
+        return 1 if any(o.startswith('panic') or o.startswith('ok') != c['want_ok'] for o in out) else 0
     if c.get('kind') == 'footer':
         nat = common.Native()
         raw = bytes.fromhex(c['raw'])
